@@ -70,7 +70,11 @@ def alphabet(scn):
             return evs
         if w.numprocesses < NP_CAP:
             evs.append(Req('incr', name='a'))
+        if w.numprocesses + 2 <= NP_CAP:
+            evs.append(Req('incr', label='incr(nb=2)', name='a', nb=2))
         evs.append(Req('decr', name='a'))
+        evs.append(Req('decr', label='decr(nb=2)', name='a', nb=2))
+        evs.append(Req('decr', label='decr(nb=9)', name='a', nb=9))
         for k in (0, 1, 2, 3):
             if k != w.numprocesses:
                 evs.append(Req('set', label='set(np=%d)' % k, name='a', options={'numprocesses': k}))
